@@ -152,4 +152,9 @@ theorem poll_sites : Gen.pollAtTop = [("cmplEvaluateNodeExpression", true), ("cm
     (hence polls) in each iteration -/
 theorem loops_poll : Gen.evaluatorLoops.all (fun l => l.2) = true := by decide
 
+/-- the scope chain head (`.scope`) is assigned by `enterScope` and `leaveScope` only: every way of
+    entering a scope (function, global, eval, native call) goes through the one place that checks the
+    stack limit and numbers the depth — the premise under which `depth_exact` speaks about the code -/
+theorem scope_writers_expected : Gen.scopeWriters = ["runtime.go:enterScope", "runtime.go:leaveScope"] := by decide
+
 end OttoVerif.C18.Thm
